@@ -488,15 +488,11 @@ def _clean_up_state(state: State) -> None:
             states_to_be_removed.remove(uid)
     for flow_state_uid in states_to_be_removed:
         flow_state = state.flow_states[flow_state_uid]
-        if (
-            flow_state.parent_uid
-            and flow_state.parent_uid in state.flow_states
-            and flow_state_uid
-            in state.flow_states[flow_state.parent_uid].child_flow_uids
-        ):
-            state.flow_states[flow_state.parent_uid].child_flow_uids.remove(
-                flow_state_uid
-            )
+        # An activated flow can be registered as child flow of several flows (or several
+        # times in the same flow), so we need to remove all these references
+        for other_flow_state in state.flow_states.values():
+            while flow_state_uid in other_flow_state.child_flow_uids:
+                other_flow_state.child_flow_uids.remove(flow_state_uid)
         flow_states = state.flow_id_states[state.flow_states[flow_state_uid].flow_id]
         flow_states.remove(flow_state)
         del state.flow_states[flow_state_uid]
